@@ -3,7 +3,7 @@
 # Applies a patch to /repo, runs the check, restores /repo. Prints the check's exit code.
 # Expected: exit 1 (VIOLATION) for a property-breaking patch. Replays written during the run are removed.
 set -u
-patch="$1"; id="$2"; tier="${3:-quick}"
+patch="$(readlink -f "$1")"; id="$2"; tier="${3:-quick}"
 cd /repo || exit 3
 if [ -n "$(git status --porcelain)" ]; then echo "selftest: /repo not clean"; exit 3; fi
 git apply "$patch" || { echo "selftest: patch does not apply"; exit 3; }
